@@ -110,6 +110,17 @@ theorem C04_ignore_table (mols : List Mol) :
   rw [gndx_keys]
   simp
 
+/-- **Ignore: the residue types are not shifted.**  At the global index of every indexed residue the
+engine's type list (`atypes`, which decides residue sizes, step lengths and forces) holds the type of
+that very residue, wherever ignored molecules stand in the list: ignored molecules do not disturb the
+building of the others. -/
+theorem C04_ignore_types (nm : Nat → Node → String) (mols : List Mol) (j : Nat) (n : Node) (g : Nat)
+    (h : ((j, n), g) ∈ gndxTable mols 0 0) : (atypeTable nm mols 0)[g]? = some (nm j n) := by
+  simpa using atype_aligned nm mols 0 0 ((j, n), g) h
+
+example : atypeTable (fun j _ => if j = 0 then "RA" else "RB") exMols 0 = ["RA", "RA", "RA", "RA", "RB", "RB", "RB"] := by
+  decide
+
 /-- **Ignore: never addressed, never moved.**  For every schedule (no hypothesis on the system): a
 trial — the only place where the engine is asked to add, remove or evaluate a position — is never for
 a residue of an ignored molecule; an ignored molecule has no engine entry at any reachable state; and
